@@ -164,7 +164,7 @@ type wbCase struct {
 	History  []HistOp  `json:"history"`
 }
 
-var allFeatures = []string{"alias", "dirs", "bin", "tags", "fingerprint", "platforms", "tests", "checks", "fail", "timeouts", "edit-outs", "edit-deps", "rootpkg", "wsmut", "taint", "nocache-build"}
+var allFeatures = []string{"alias", "dirs", "bin", "tags", "fingerprint", "platforms", "tests", "checks", "fail", "timeouts", "edit-outs", "edit-deps", "rootpkg", "wsmut", "taint", "nocache-build", "extfail", "twins"}
 
 func (w *wbuild) Name() string { return "wbuild" }
 
@@ -374,6 +374,11 @@ func (w *wbuild) Drive(s *simrt.Sched, out *RunResult) {
 				s.Report(simrt.Violation{Prop: "C13", Class: "taint-failed", Signature: "exit", Detail: "grog taint " + l + " exited " + fmt.Sprint(res.ExitCode) + "\n" + tailStr(res.Log, 10)})
 			}
 			cm.taint[l] = true
+			if !platformOK(w.U.Specs[l], base.Platform, false) {
+				// whether `grog taint` reaches a target that does not match the host platform is
+				// not documented: left open
+				cm.taintUnc[l] = true
+			}
 			shapeParts = append(shapeParts, "taint")
 		}
 	}
@@ -430,7 +435,7 @@ func (w *wbuild) mutateWorkspace(m *Machine) string {
 	sp := w.U.Specs[l]
 	o := sp.Outs[c.Choose(len(sp.Outs), "wsmut-out")]
 	abs := filepath.Join(m.WS, sp.Pkg, o.Path)
-	kind := pick(c, "wsmut-kind", "delete", "delete-parent", "modify", "truncate", "extra-file", "swap-kind")
+	kind := pick(c, "wsmut-kind", "delete", "delete-parent", "modify", "truncate", "extra-file", "swap-kind", "modify-longer")
 	if kind == "swap-kind" && o.Kind != "dir" {
 		kind = "delete" // the property names "a file where a directory should be", not the reverse
 	}
@@ -448,6 +453,14 @@ func (w *wbuild) mutateWorkspace(m *Machine) string {
 			os.WriteFile(filepath.Join(abs, "f0.dat"), []byte("tampered"), 0644)
 		} else {
 			os.WriteFile(abs, []byte("tampered"), 0644)
+		}
+	case "modify-longer":
+		long := strings.Repeat("a much longer stale file than any output; ", 6)
+		if o.Kind == "dir" {
+			os.WriteFile(filepath.Join(abs, "f0.dat"), []byte(long), 0644)
+			os.WriteFile(filepath.Join(abs, "f1.dat"), []byte(long), 0755)
+		} else {
+			os.WriteFile(abs, []byte(long), 0644)
 		}
 	case "truncate":
 		if o.Kind != "dir" {
@@ -574,6 +587,15 @@ func (w *wbuild) checkBuild(res *InvResult, req BuildReq, opts InvOpts, cm *cach
 	status := map[string]string{}
 	var failedLabels []string
 	anyFail := false
+	extFail0 := map[string]string{}
+	forcedNow := map[string]bool{}
+	for _, l := range order {
+		k := ext0["fail_"+l]
+		if k == "omit" && len(u.Specs[l].Outs) == 0 || k == "break" && len(u.Specs[l].Checks) == 0 {
+			k = "exit"
+		}
+		extFail0[l] = k
+	}
 	unc0 := map[string]bool{}
 	for k := range cm.unc {
 		unc0[k] = true
@@ -634,8 +656,8 @@ func (w *wbuild) checkBuild(res *InvResult, req BuildReq, opts InvOpts, cm *cach
 			verdict = "mustnot"
 		}
 		// model outcome of an execution
-		willFail := sp.Fail != ""
-		if len(sp.Checks) > 0 && !sp.Establish && checkFails {
+		willFail := sp.Fail != "" || extFail0[l] != ""
+		if len(sp.Checks) > 0 && (sp.Breaks || (!sp.Establish && checkFails)) {
 			willFail = true
 		}
 		ran := executed[l] > 0
@@ -647,8 +669,19 @@ func (w *wbuild) checkBuild(res *InvResult, req BuildReq, opts InvOpts, cm *cach
 			}
 		case "mustnot":
 			if ran {
-				report("C02", "unnecessary-execution", "cached-state-rebuilt", fmt.Sprintf("%s has a cached successful result for its current state, is not tainted/no-cache and has no failing check, but its command ran", l))
+				prop, class := "C02", "unnecessary-execution"
+				for _, d := range u.DepTargets(sp) {
+					if forcedNow[d] {
+						// C13: dependants of a force-executed target are invalidated only if its
+						// outputs actually changed
+						prop, class = "C13", "dependant-invalidated-without-output-change"
+					}
+				}
+				report(prop, class, "cached-state-rebuilt", fmt.Sprintf("%s has a cached successful result for its current state, is not tainted/no-cache and has no failing check, but its command ran", l))
 			}
+		}
+		if reason == "cache-disabled" || reason == "no-cache" || reason == "tainted" {
+			forcedNow[l] = true
 		}
 		if executed[l] > 1 && opts.LoadOutputs == "all" {
 			report("C03", "executed-twice", "wbuild", fmt.Sprintf("%s executed %d times in one build", l, executed[l]))
@@ -742,7 +775,7 @@ func (w *wbuild) checkBuild(res *InvResult, req BuildReq, opts InvOpts, cm *cach
 		if res.ExitCode == 0 {
 			prop := "C05"
 			for _, l := range failedLabels {
-				if u.Specs[l].Fail == "omit" || u.Specs[l].Fail == "slow" || len(u.Specs[l].Checks) > 0 {
+				if u.Specs[l].Fail == "omit" || u.Specs[l].Fail == "slow" || len(u.Specs[l].Checks) > 0 || extFail0[l] == "omit" || extFail0[l] == "break" {
 					prop = "C14"
 				}
 			}
@@ -794,6 +827,7 @@ func (w *wbuild) checkBuild(res *InvResult, req BuildReq, opts InvOpts, cm *cach
 			report("C01", "stale-restore", diffStates(ev.state(l), cm.produced[l][got.String()]), fmt.Sprintf("%s was not executed; its outputs equal what an EARLIER state of the target produced, not a clean build of the current sources: %s", l, diff))
 		default:
 			report("C06", "inexact-restore", diffClass(want, got), fmt.Sprintf("%s was restored from the cache but the result differs from what was cached: %s", l, diff))
+			report("C01", "restored-output-differs-from-clean-build", diffClass(want, got), fmt.Sprintf("%s was not executed and its outputs differ from a clean build of the current sources: %s", l, diff))
 		}
 	}
 }
